@@ -61,6 +61,24 @@ CLAIMED = {
              "ACC_RDONLY and keeps bytes identical is trusted - the flag handed over is asserted; "
              "counterexamples are replayed on a real file incl. a byte-for-byte comparison.",
         ref="3 C11"),
+    "C19": dict(
+        text="(a) str_to_time(time_to_str(t)) == t, the text fields stay in range and the text has "
+             "the YYYYMMDDTHHMMSS shape for every whole second 1970-2100: unsat verdicts of z3 and "
+             "cvc5 on an SMT formula regenerated from the AST of util.py each run. (b) For every "
+             "setter named in the statement (35 calls over all entity kinds), both settings of the "
+             "auto-update switch given at open or toggled later, and all clock instants c0 <= c1 "
+             "in Z: creation times never change, update times never decrease, auto off changes "
+             "nothing, auto on sets exactly the target's update time to the current instant; "
+             "force_*_at(t) then read returns t for all t.",
+        note="(a) the C datetime library is represented by a fixed semantic table (strftime/strptime "
+             "directives, civil-date algorithm) validated against the real functions on 3018 instants "
+             "per run; unknown AST shapes/directives give 'inconclusive'. (b) runs on fakeh5 with the "
+             "clock stubbed; one fixture file; DataFrame setters and persistence across reopen "
+             "(libhdf5) are outside. Counterexamples are replayed on a real HDF5 file.",
+        engine="crosshair-z3 + ast-smt",
+        technique="AST->SMT-LIB encoding decided by z3 and cvc5 (text conversion); bounded symbolic "
+                  "execution with CrossHair/z3 over symbolic clock instants (policy)",
+        ref="3 C19"),
 }
 
 NOT_APPLICABLE = {
